@@ -18,7 +18,7 @@ pub fn def() -> PropDef {
 fn run(r: &mut Run) -> Result<(), MachineryError> {
     let t = r.tier;
     let alpha = [L, SP, W, NL, HY, CSI];
-    let n = t.pick(4, 6);
+    let n = t.pick(5, 7);
     let gaps = [("", "", ""), ("|", "|", "|"), ("\u{4f60}", " ", ""), ("", "--", ">"), ("| ", " | ", " |")];
     let space = Space { name: "C20/texts".into(), menu: menu(&alpha), max_len: n, desc: format!("texts of length <= {} x columns 1..=4 x total widths 0..=12 x gap triples {:?} x break_words x algorithms", n, gaps) };
     r.space(space, |seq, cx| {
